@@ -965,6 +965,9 @@ func TestVF_C18(t *testing.T) {
 			res.Eval(1)
 			if acc {
 				st.accepted++
+				if st.accepted == 3 && (ci%12 == 0) {
+					res.Sample(map[string]any{"codec": name, "origin": origin, "accepted_input_hex": vfHex(in[:min(len(in), 80)]), "len": len(in)})
+				}
 				res.NonTrivial(name + "/" + vfShortHash(string(in)))
 			} else {
 				st.rejected++
